@@ -243,6 +243,14 @@ package server
 //@   claims step
 //@   loop 0 step a.State.Family == family ==> all == header(all)
 
+// from C12 "Stale routes disappear exactly when the restart timer expires without re-establishment": while the peer
+// is restarting, the retained routes are dropped (or the long-lived phase started) for no other reason than the
+// expiry of the restart timer - a reconnection attempt that fails inside the window is not one
+//@ func (*BgpServer).handleFSMMessage
+//@   claims at-call
+//@   at-call ^s.dropAdjRIBIn(peer, peer.configuredRFlist()) requires e.StateReason != nil && e.StateReason.Type == fsmRestartTimerExpired
+//@   at-call peer.llgrFamilies() requires e.StateReason != nil && e.StateReason.Type == fsmRestartTimerExpired
+
 // "... until the per-family long-lived timer expires": what the expiry removes are the routes still stale; routes the
 // peer has re-announced since (the session may be up again, End-of-RIB not yet in) are fresh and stay. The closure is
 // the management operation run by the timer goroutine: what it propagates comes from the sweep of stale routes
